@@ -428,6 +428,15 @@ impl BlockchainSyncState {
         self.blocks_to_fetch.retain(|_, deq| !deq.is_empty());
     }
 
+    /// Removes the entry of a block for one peer only : the request couldn't be sent to that peer
+    /// (no fetch url, old version, peer gone). What the other peers announced stays queued.
+    pub fn remove_entry_for_peer(&mut self, block_hash: SaitoHash, peer_index: PeerIndex) {
+        if let Some(deq) = self.blocks_to_fetch.get_mut(&peer_index) {
+            deq.retain(|block_data| block_data.block_hash != block_hash);
+        }
+        self.blocks_to_fetch.retain(|_, deq| !deq.is_empty());
+    }
+
     pub fn get_stats(&self) -> Vec<String> {
         let mut stats = vec![];
         for (peer_index, vec) in self.blocks_to_fetch.iter() {
